@@ -34,7 +34,7 @@ RULE = (
 )
 ASSUMPTIONS = ["helper parameters annotated Any (eq/ne/gt/ge/lt/le value, call_method args) are exercised as constants only"]
 FLOORS = {"bracketings_compared": (1500, 30000), "identity_checks": (400, 8000), "split_checks": (1500, 30000), "rshift_checks": (400, 8000),
-          "param_key_checks": (400, 8000), "reuse_checks": (300, 6000), "helper_cases": (263, 263), "helper_cases_with_option_argument": (144, 144), "helpers_covered": (60, 60), "helper_reapplications": (254, 254), "pipeline_history_steps": (3000, 60000), "stateful_step_evaluations": (36, 36), "templated_parameter_checks": (150, 3000), "mutable_constant_parameter_evaluations": (20, 20)}
+          "param_key_checks": (400, 8000), "reuse_checks": (300, 6000), "helper_cases": (281, 281), "helper_cases_with_option_argument": (156, 156), "helpers_covered": (60, 60), "helper_reapplications": (272, 272), "pipeline_history_steps": (3000, 60000), "stateful_step_evaluations": (36, 36), "templated_parameter_checks": (150, 3000), "mutable_constant_parameter_evaluations": (20, 20)}
 SHARDS_QUICK = 2
 
 
@@ -363,6 +363,9 @@ def helper_table():
         "difference": [(lambda V: F.difference(V([2, 9])), [1, 2, 3], {1, 3})],
         "symmetric_difference": [(lambda V: F.symmetric_difference(V([2, 9])), [1, 2], {1, 9})],
         "get": [(lambda V: F.get(V("k")), {"k": 1}, 1), (lambda V: F.get(V(1)), ["a", "b"], "b"), (lambda V: F.get(V("zz"), V("dflt")), {"k": 1}, "dflt"),
+                # (indexing is Python's: negative indices count from the end, with and without a default; out of range -> default)
+                (lambda V: F.get(V(-1)), ["a", "b", "c"], "c"), (lambda V: F.get(V(-1), V("dflt")), ["a", "b", "c"], "c"), (lambda V: F.get(V(-3), V("dflt")), ("a", "b", "c"), "a"),
+                (lambda V: F.get(V(-4), V("dflt")), ["a", "b", "c"], "dflt"), (lambda V: F.get(V(5), V("dflt")), "abc", "dflt"), (lambda V: F.get(V(-2), V("dflt")), "abc", "b"),
                 (lambda V: F.get(V("zz")), {"k": 1}, KeyError)],
         "get_from": [(lambda V: F.get_from(V({"k": "v"})), "k", "v"), (lambda V: F.get_from(V(["a", "b"])), 1, "b"), (lambda V: F.get_from(V({"k": 1}), V("dflt")), "zz", "dflt")],
         "add": [(lambda V: F.add(V(NCb)), NCa, ("add", "x", "a")), (lambda V: F.add(V("cd")), "ab", "abcd")],
